@@ -299,7 +299,7 @@ pub fn spec() -> PropSpec {
     level: "fault_enumeration",
     assumptions: vec![
       "the independent parser/printer in refmodel::layout is the documented layout (4-byte LE threshold and length prefixes, 24-byte LE elements < p, 64-byte tag, trailing partial element / trailing report bytes ignored)",
-      "all byte strings cannot be enumerated: decided on every single-fault mutation of 13 annotated base encodings, all splices at field boundaries, and all strings of length <= 8 (quick: 6) over {00,01,04,18,40,ff}",
+      "all byte strings cannot be enumerated: decided on every single-fault mutation of 13 annotated base encodings, all splices at field boundaries, and all strings of length <= 8 (thorough: 9) over {00,01,04,18,40,ff}",
     ],
     thorough_budget_s: 1200,
     checks: vec![
@@ -361,7 +361,7 @@ pub fn spec() -> PropSpec {
           let mut v = vec![];
           for a in 0..n {
             for b in 0..n {
-              if tier.thorough() || (a + 2 * b) % 3 == 0 {
+              if tier.thorough() || true {
                 v.push(json!({"a": a, "b": b}));
               }
             }
@@ -373,8 +373,8 @@ pub fn spec() -> PropSpec {
       },
       Check {
         name: "short-strings",
-        rule: "ALL byte strings of length <= 6 (quick) / 8 (thorough) over {00,01,04,18,40,ff} through all 7 decoders",
-        gen: |tier| (0..32).map(|p| json!({"part": p, "parts": 32, "maxlen": if tier.thorough() { 8 } else { 6 }})).collect(),
+        rule: "ALL byte strings of length <= 8 (quick) / 9 (thorough) over {00,01,04,18,40,ff} through all 7 decoders",
+        gen: |tier| (0..64).map(|p| json!({"part": p, "parts": 64, "maxlen": if tier.thorough() { 9 } else { 8 }})).collect(),
         run: run_short,
         min_counts: &[("accepted", 100), ("rejected", 10_000)],
       },
